@@ -493,19 +493,24 @@ func scriptedRun(sc *Script, log *PlugLog, stdin io.Reader, stdout io.Writer) in
 // wrongName gives one of several names that are not the expected one: unrelated,
 // differing in letter case only, with a trailing blank, cut short, empty.
 func wrongName(name string, variant int) string {
+	w := "not-" + name
 	switch variant % 6 {
 	case 1:
-		return strings.ToUpper(name)
+		w = strings.ToUpper(name)
 	case 2:
-		return name + " "
+		w = name + " "
 	case 3:
-		return name[:len(name)-1]
+		w = name[:len(name)-1]
 	case 4:
-		return ""
+		w = ""
 	case 5:
-		return strings.ToUpper(name[:1]) + name[1:]
+		w = strings.ToUpper(name[:1]) + name[1:]
 	}
-	return "not-" + name
+	if w == name {
+		// a name without letters where the variant changes case ("50%off"): still a wrong name
+		w = "not-" + name
+	}
+	return w
 }
 
 // wrongVersion gives an API version other than the expected one.
